@@ -149,6 +149,29 @@ theorem unitinterval_pinned_out_of_range :
   norm_num [colMin, Vec.at]
 
 
+/-- **The normalisers and the whitening model do not depend on the batch partition**: for two
+batchings of the same sequence of rows, `NormalizeComponentsUnitVariance`, `…UnitInterval`
+and the whitening / ZCA model (for any decomposition routine, as a function of the covariance)
+are the same model. -/
+theorem normalizers_batch_independent (bs bs' : List (List Vec)) (h : bs.flatten = bs'.flatten)
+    (sqrt : Rat → Rat) (zeroMean : Bool)
+    (factor : Nat → (Nat → Nat → Rat) → Nat × (Nat → Nat → Rat)) (sqrtT : Rat) (d : Nat) :
+    unitVariance sqrt zeroMean bs = unitVariance sqrt zeroMean bs'
+    ∧ unitInterval bs = unitInterval bs'
+    ∧ whitening factor sqrtT bs d = whitening factor sqrtT bs' d := by
+  have hm : mean bs = mean bs' := by
+    funext j; exact (meanvar_batch_independent bs bs' h 0 j).1
+  have hv : variance bs = variance bs' := by
+    funext j; exact (meanvar_batch_independent bs bs' h 0 j).2.1
+  have hc : covariance bs = covariance bs' := by
+    funext i j; exact (meanvar_batch_independent bs bs' h i j).2.2
+  have hmin : colMin bs = colMin bs' := by funext j; simp only [colMin, h]
+  have hmax : colMax bs = colMax bs' := by funext j; simp only [colMax, h]
+  refine ⟨?_, ?_, ?_⟩
+  · simp only [unitVariance, hm, hv]
+  · simp only [unitInterval, unitIntervalWith, hmin, hmax]
+  · simp only [whitening, hm, hc]
+
 /-! ## Whitening -/
 
 /-- **`NormalizeComponentsWhitening` / `NormalizeComponentsZCA`** (every dataset, partition,
